@@ -197,7 +197,7 @@ def cases(ctx):
         rng.shuffle(order)
         yield {"kind": "dag", "nodes": nodes, "order": order, "history": _gen_history(rng, len(nodes))}
     for i in range(ctx.n(250, 12000)):
-        m = models.gen_model(rng, n_ops=rng.randint(1, 10), sinks=True, metadata=rng.random() < 0.3)
+        m = models.gen_model(rng, n_ops=rng.randint(1, 10), sinks=True, metadata=rng.random() < 0.3, libs="nc" if i % 3 == 0 else "csv")
         m = models.permuted(m, rng)
         yield {"kind": "eems", "model": m, "history": _gen_history(rng, len(m["commands"]))}
 
